@@ -42,11 +42,15 @@ def plan(tier, seed):
     jobs = [{"name": "faults%02d" % i, "spec": {"n": n // NSH, "i": i}} for i in range(NSH)]
     # the same sweep with the interpreter in -O mode (assert statements stripped): checks must not live in asserts
     jobs += [{"name": "faultsO%02d" % i, "optimize": True, "spec": {"n": 2 if tier == "quick" else 10, "i": i, "optimized": True}} for i in range(2 if tier == "quick" else 8)]
+    if tier == "quick":
+        jobs += [{"name": "bigpayload0", "spec": {"kind": "bigpayload", "lens": [0x8000], "samples": 6}}, {"name": "bigpayload1", "spec": {"kind": "bigpayload", "lens": [33001], "samples": 6}}]
+    else:
+        jobs += [{"name": "bigpayload%d" % i, "spec": {"kind": "bigpayload", "lens": [ln], "samples": 40}} for i, ln in enumerate((0x8000, 33001, 0x10000, 70001, 0x7FFF, 140000))]
     return jobs
 
 
 def mandatory_bins(tier):
-    b = ["flip_in:" + f for f in FIELDS + BEC2_FIELDS]
+    b = ["payload_of_32k_or_more"] + ["flip_in:" + f for f in FIELDS + BEC2_FIELDS]
     b += ["cut_inside_dirsize", "cut_after_signature", "cut_drops_only_trailing_zeros_of_last_payload", "cut_inside_hex_pair", "cut_inside_comments", "cut_removes_only_final_newline",
           "binary_prefix", "text_prefix", "binary_suffix", "text_suffix", "key_bit_flip_bf3", "key_buffer_changed_in_place_after_a_successful_read", "key_bit_flip_bec2_decryptor", "key_bit_flip_bec2_rewrapped", "bf3", "bec2",
           "bec2_ecc", "encrypted_component", "zero_components", "three_components", "payload_len_1", "payload_len_16", "payload_len_17", "damage_returns_original_content", "payload_longer_than_1024", "two_identical_payloads", "unchecked_read_of_the_same_file_first", "interpreter_in_optimized_mode"]
@@ -159,7 +163,7 @@ def read(ns, a, text, key=None, encs=None):
     return ns.bec2file.Bec2File.read_file(io.StringIO(text), GB.read_encryptors(ns, a.specs) if encs is None else encs, True)
 
 
-def verdict(ns, ctx, a, what, text, detail, key=None, encs=None, changed=True):
+def verdict(ns, ctx, a, what, text, detail, key=None, encs=None, changed=True, replay_rec=None):
     """runs the real reader on the damaged text and applies the oracle"""
     ctx.ev()
     if changed:
@@ -179,7 +183,7 @@ def verdict(ns, ctx, a, what, text, detail, key=None, encs=None, changed=True):
         d = G.diff_file(res, a.case)
     if d:
         mech = "damaged_file_accepted_with_different_content:%s:%s" % (what, d[0].split("[")[0])
-        ctx.violation(mech, dict(detail, diff=d, kind=a.kind), {"kind": a.kind, "case": a.case.to_json(), "key": a.key.hex(), "specs": GB.spec_json(a.specs) if a.specs else None, "damaged_text": text if len(text) < 6000 else None, "reader_key": key.hex() if key else None})
+        ctx.violation(mech, dict(detail, diff=d, kind=a.kind), replay_rec if replay_rec is not None else {"kind": a.kind, "case": a.case.to_json(), "key": a.key.hex(), "specs": GB.spec_json(a.specs) if a.specs else None, "damaged_text": text if len(text) < 6000 else None, "reader_key": key.hex() if key else None})
         return "violation"
     ctx.bin("damage_returns_original_content")
     return "same"
@@ -367,9 +371,46 @@ def run_authentic(ns, ctx, a, rng, full=True):
                 verdict(ns, ctx, a, "session_key_bit_changed_inside_block:" + s["kind"], L.text_of(comments, hdr + a.binary[pos:]), {"bit": bit, "block": bi})
 
 
+def run_bigpayload(ns, ctx, spec):
+    """authentic BF3 files with a payload of 32 KiB and more (a size at which a reader might start to work in chunks, in the background or
+    on a sample): every sampled single-byte change inside that payload must be noticed like anywhere else"""
+    rng = ctx.rng
+    for ln in spec["lens"]:
+        a = Authentic()
+        a.long_payload = True
+        a.duplicate_payload = False
+        a.has_ecc = False
+        a.kind = "bf3"
+        a.specs = None
+        a.key = G.gen_key(rng)
+        big = rng.randbytes(ln)
+        comps = [MComp([(1, b"\x01")], b"first small one", None, False), MComp([(1, b"\x02")], big, None, False), MComp([(0xC3, b"\x03"), (0xC2, b"\x02")], b"secret tail", 11, True)]
+        a.case = G.Case([("FirmwareId", "1100")], comps)
+        a.binary = L.BF3_SIG + G.build_real(ns, a.case).to_binary(len(L.BF3_SIG), a.key)
+        a.text = L.text_of(a.case.comments, a.binary)
+        a.regs = field_map(a.binary, a.kind)
+        start = a.binary.index(big[:24])
+        ctx.bin("payload_of_32k_or_more")
+        ctx.ev()
+        if verdict(ns, ctx, a, "unchanged", a.text, {}, changed=False) != "same":
+            ctx.violation("authentic_file_rejected", {"payload_len": ln}, {"kind": "bigpayload", "lens": [ln]})
+            continue
+        positions = sorted({0, 1, 15, 16, 17, ln // 2, ln // 2 + 1, 0x4000, 0x7FFF, 0x8000 % ln, ln - 17, ln - 16, ln - 2, ln - 1} | {rng.randrange(ln) for _ in range(spec["samples"])})
+        for off in positions:
+            if not 0 <= off < ln:
+                continue
+            for name, fn in (("bit0", lambda b: b ^ 1), ("set00_or_ff", lambda b: 0 if b else 0xFF)):
+                dmg = bytearray(a.binary)
+                dmg[start + off] = fn(dmg[start + off])
+                verdict(ns, ctx, a, "byte_replaced:payload_of_32k_or_more", L.text_of(a.case.comments, bytes(dmg)), {"payload_len": ln, "offset_in_payload": off, "how": name}, replay_rec={"kind": "bigpayload", "lens": [ln]})
+
+
 def run_shard(spec, ctx):
     ns = load()
     rng = ctx.rng
+    if spec.get("kind") == "bigpayload":
+        run_bigpayload(ns, ctx, spec)
+        return
     if spec.get("optimized"):
         import sys
 
@@ -394,6 +435,9 @@ def replay(rec, ctx):
     a.has_ecc = False
     a.long_payload = a.duplicate_payload = False
     key = bytes.fromhex(rec["reader_key"]) if rec.get("reader_key") else None
+    if rec.get("kind") == "bigpayload":
+        run_bigpayload(ns, ctx, {"lens": rec["lens"], "samples": 6})
+        return
     if rec.get("damaged_text") is not None:
         if key is not None and a.kind == "bf3":
             # the history variants: a read with the right key first, in the same buffer object
